@@ -7,7 +7,7 @@ import z3
 
 from . import sym, units
 from .sym import (Sc, Forall, flatten, to_z3, wrap, band, bnot, implies, compare, fresh_int, fresh_real,
-                  guard_of, SUMS, Unsupported)
+                  guard_of, SUMS, EXTREMA, Unsupported)
 
 import os as _os
 DUMP_DIR = _os.environ.get('SEDVC_DUMP')
@@ -82,7 +82,7 @@ def _collect_terms(exprs, ints, reals, limit=20000, pos=None):
                 if t.num_args() == 0:
                     if tid == JID:
                         continue
-                    a = SUMS.by_const.get(tid)
+                    a = SUMS.by_const.get(tid) or EXTREMA.by_const.get(tid)
                     if a is not None:
                         stack.append(a.body)
                         stack.append(a.n)
@@ -118,13 +118,14 @@ def _mentions_J(t, JID):
 
 
 _PATTERN_CACHE = {}
+sym.RESET_HOOKS.append(_PATTERN_CACHE.clear)
 
 
 def _forall_pattern(fa):
     """For each bound variable of fa: the set of (function, arg position) it occupies
     in the body (None = occupies none: instantiate everywhere)."""
     key = id(fa)
-    if key in _PATTERN_CACHE:
+    if key in _PATTERN_CACHE and _PATTERN_CACHE[key][0] is fa:
         return _PATTERN_CACHE[key][1]
     probes = []
     for r in fa.ranges:
@@ -214,8 +215,8 @@ def _instantiate(foralls, ints, reals, done, out, budget, pos=None, cache=None):
             budget[0] -= 1
             if budget[0] <= 0:
                 return nested
-            if cache is not None and key in cache:
-                forms, nest = cache[key]
+            if cache is not None and key in cache and cache[key][2] is fa:
+                forms, nest = cache[key][0], cache[key][1]
                 out.extend(forms)
                 nested.extend(nest)
                 continue
@@ -239,7 +240,7 @@ def _instantiate(foralls, ints, reals, done, out, budget, pos=None, cache=None):
                 else:
                     forms.append(to_z3(implies(g, x), 'bool'))
             if cache is not None:
-                cache[key] = (forms, nest)
+                cache[key] = (forms, nest, fa)      # keeps fa alive: its id cannot be reused
             out.extend(forms)
             nested.extend(nest)
     return nested
@@ -257,6 +258,7 @@ def _guarded(g, f):
 
 
 _SIG = {}
+sym.RESET_HOOKS.append(_SIG.clear)
 
 
 def _signature(a):
@@ -278,18 +280,27 @@ def _signature(a):
     return _SIG[k]
 
 
-def _similar(a1, a2):
+def _similarity(a1, a2):
+    """Score in [0,1]: same top-level operator, similar size, shared function symbols."""
     k1, n1, s1 = _signature(a1)
     k2, n2, s2 = _signature(a2)
     if k1 != k2:
-        return False
+        return 0.
     if max(s1, s2) > 3 * min(s1, s2) + 5:
-        return False
+        return 0.
     keys = set(n1) | set(n2)
     if not keys:
-        return True
-    common = set(n1) & set(n2)
-    return len(common) >= 0.6 * len(keys)
+        return 0.5
+    common = sum(min(n1.get(k, 0), n2.get(k, 0)) for k in keys)
+    total = sum(max(n1.get(k, 0), n2.get(k, 0)) for k in keys)
+    jac = common / float(total)
+    if jac < 0.5:
+        return 0.
+    return jac * (min(s1, s2) / float(max(s1, s2)))
+
+
+def _similar(a1, a2):
+    return _similarity(a1, a2) > 0
 
 
 class AxiomStore(object):
@@ -298,6 +309,7 @@ class AxiomStore(object):
     def __init__(self):
         self.sign = {}      # atom const id -> list of axioms
         self.pair = {}      # (id1, id2) -> axiom
+        self.ext = {}       # extremum const id -> (ground witness axiom, Forall bound)
 
     def sign_axioms(self, a):
         k = a.const.get_id()
@@ -321,6 +333,24 @@ class AxiomStore(object):
         return self.pair[k]
 
 
+def extremum_axioms(store, terms):
+    """Defining facts of the named extrema occurring in `terms`: a witness index attains
+    the value (ground) and the value bounds every element (quantified, instantiated as usual)."""
+    ground, foralls = [], []
+    for a in EXTREMA.atoms_in(terms):
+        k = a.const.get_id()
+        if k not in store.ext:
+            w = fresh_int('wit')
+            g = z3.Implies(a.n > 0, z3.And(w >= 0, w < a.n, a.const == a.at(w)))
+            op = (lambda x, y: x <= y) if a.which == 'min' else (lambda x, y: x >= y)
+            fa = Forall([Sc(a.n)], (lambda a, op: lambda kk: Sc(op(a.const, a.at(kk.t))))(a, op), name=a.which)
+            store.ext[k] = (g, fa)
+        g, fa = store.ext[k]
+        ground.append(g)
+        foralls.append(fa)
+    return ground, foralls
+
+
 def sum_axioms(store, core_terms, all_terms, pairwise, wide, goal_terms=None):
     """Sound facts about sum atoms (rules R1, R3 of DESIGN.md):
       sign:  S < 0  =>  body(j*) < 0 for a witness 0 <= j* < n   (and S > 0 likewise)
@@ -328,23 +358,28 @@ def sum_axioms(store, core_terms, all_terms, pairwise, wide, goal_terms=None):
     core atoms occur in the goal / ground hypotheses; `wide` extends sign axioms to the
     atoms that only occur in instantiated hypotheses.  Pair axioms always involve at
     least one atom of the goal."""
+    sign = wide
+    wide = sign == 'wide'
     core = SUMS.atoms_in(core_terms)
     every = SUMS.atoms_in(all_terms) if (wide or pairwise) else core
     ax = []
-    for a in (every if wide else core):
-        ax.extend(store.sign_axioms(a))
+    if sign != 'none':
+        for a in (every if wide else core):
+            ax.extend(store.sign_axioms(a))
     if pairwise == 'goal':
         ga = SUMS.atoms_in(goal_terms)[:8]
-        n = 0
         for a1 in ga:
-            for a2 in every[:60]:
-                if a1 is a2 or z3.is_real(a1.body) != z3.is_real(a2.body) or not _similar(a1, a2):
+            cands = []
+            for a2 in every:
+                if a1 is a2 or z3.is_real(a1.body) != z3.is_real(a2.body):
                     continue
+                sc = _similarity(a1, a2)
+                if sc > 0:
+                    cands.append((-sc, a2.const.sexpr(), a2))
+            cands.sort(key=lambda x: (x[0], x[1]))
+            for _, _, a2 in cands[:6]:
                 ax.append(store.pair_axiom(a1, a2))
                 ax.append(store.pair_axiom(a2, a1))
-                n += 1
-                if n > 12:
-                    break
     elif pairwise:
         goal_atoms = (SUMS.atoms_in(goal_terms) if goal_terms else core)[:10]
         others = every[:24]
@@ -397,12 +432,13 @@ def prove(ob, timeout_ms=20000, global_axioms=(), want_model=False):
 
 
 STAGES = (
-    # (terms of ground hyps, rounds, pairwise, unfold definitional axioms, wide sign axioms, timeout fraction)
-    (False, 1, False, False, False, 0.15),
-    (True, 2, False, False, False, 0.3),
-    (True, 2, 'goal', False, False, 0.4),
-    (True, 2, False, True, True, 0.5),
-    (True, 3, True, True, True, 1.0),
+    # (terms of ground hyps, rounds, pairwise, unfold definitional axioms, sign axioms: none/core/wide, timeout fraction)
+    (False, 1, False, False, 'none', 0.15),
+    (False, 1, False, False, 'core', 0.15),
+    (True, 2, False, False, 'core', 0.3),
+    (True, 2, 'goal', False, 'none', 0.4),
+    (True, 2, False, True, 'wide', 0.5),
+    (True, 3, True, True, 'wide', 1.0),
 )
 
 Z3_BIN = _os.environ.get('SEDVC_Z3', 'z3-new')
@@ -445,11 +481,14 @@ def _prove_one(ground, foralls, guards, goal, timeout_ms, want_model):
     store = AxiomStore()
     inst_cache = {}
     core = list(ground) + list(guards) + [goal]
-    for stage, (use_ground_terms, max_rounds, pairwise, unfold, wide, tfrac) in enumerate(STAGES):
+    for stage, (use_ground_terms, max_rounds, pairwise, unfold, sign, tfrac) in enumerate(STAGES):
+        wide = sign == 'wide'
         final = stage == len(STAGES) - 1
         base = list(ground) + list(guards)
-        if stage == 3 and not any(f.lazy for f in foralls):
+        if stage == 4 and not any(f.lazy for f in foralls):
             continue        # nothing new to unfold
+        if stage == 1 and not SUMS.atoms_in(core):
+            continue
         if pairwise == 'goal' and len(SUMS.atoms_in([goal])) < 2:
             continue
         ints, reals, pos = {}, {}, {}
@@ -459,10 +498,12 @@ def _prove_one(ground, foralls, guards, goal, timeout_ms, want_model):
         inst = []
         done = set()
         budget = [MAX_INST if final else 1500]
-        ax, natoms = sum_axioms(store, core, core, pairwise, wide, goal_terms=[goal])
+        ax, natoms = sum_axioms(store, core, core, pairwise, sign, goal_terms=[goal])
+        ext_ground, ext_foralls = extremum_axioms(store, core)
+        ax = ax + ext_ground
         _collect_terms(ax, ints, reals, pos=pos)
         rounds = 0
-        all_foralls = [f for f in foralls if unfold or not f.lazy]
+        all_foralls = [f for f in foralls if unfold or not f.lazy] + ext_foralls
         while rounds < max_rounds:
             rounds += 1
             before = len(inst)
@@ -471,9 +512,9 @@ def _prove_one(ground, foralls, guards, goal, timeout_ms, want_model):
             n_before = len(ints)
             _collect_terms(inst[before:], ints, reals, pos=pos)
             if wide or pairwise:
-                ax2, natoms2 = sum_axioms(store, core, core + inst, pairwise, wide, goal_terms=[goal])
+                ax2, natoms2 = sum_axioms(store, core, core + inst, pairwise, sign, goal_terms=[goal])
                 if natoms2 > natoms:
-                    ax, natoms = ax2, natoms2
+                    ax, natoms = ax2 + ext_ground, natoms2
                     _collect_terms(ax, ints, reals, pos=pos)
             if len(ints) == n_before and not nested and len(inst) == before:
                 break
